@@ -36,6 +36,7 @@ KT = {  # name -> scalar kind | ("struct"|"union", [(scalar kind, array length o
     "Siii": ("struct", [("int", 0)] * 3), "Sc13": ("struct", [("char", 13)]),
     "Sdf": ("struct", [("double", 0), ("float", 0)]), "Sfic": ("struct", [("float", 0), ("int", 0), ("char", 0)]),
     "Sc17": ("struct", [("char", 17)]), "Sddd": ("struct", [("double", 0)] * 3),
+    "See": ("struct", [("ldouble", 0)] * 2), "Sel": ("struct", [("ldouble", 0), ("long", 0)]),
     "v": "void", "b": "bool", "c": "char", "uc": "uchar", "s": "short", "us": "ushort",
 }
 NARROW = {"b": (8, False), "c": (8, True), "uc": (8, False), "s": (16, True), "us": (16, False)}
@@ -102,17 +103,24 @@ def vnum(ai, li):
 
 # ------------------------------------------------------------------ one case -> C
 CTXS = ["d0", "d1", "d2", "d3", "nest"]
+PROBE = "S24"
+NPROBE = ["l", "d"]
 
 
 class Case:
-    def __init__(self, n, b, ctx="d0", fwd=False):
-        self.n, self.b, self.ctx, self.fwd = n, b, ctx, fwd
-        self.ret, self.args, self.nfix = b["ret"], b["args"], b["nfix"]
+    def __init__(self, n, b, ctx="d0", fwd=False, probe=False):
+        self.n, self.b, self.ctx, self.fwd, self.probe = n, b, ctx, fwd, probe
+        self.ret, self.args, self.nfix = b["ret"], list(b["args"]), b["nfix"]
+        if probe and self.nfix < len(self.args):   # the spec says a further 24-byte struct is passed and fetched without disagreement
+            self.args.append(PROBE)
+        elif probe:                                # ... a further long and double parameter are placed without disagreement
+            self.args += NPROBE
+            self.nfix += len(NPROBE)
         self.var = self.nfix < len(self.args)
 
     def key(self):
         return "%s(%s%s)%s%s" % (self.ret, ",".join(self.args[:self.nfix]), (",...," + ",".join(self.args[self.nfix:])) if self.var else "",
-                                 self.ctx, ":fwd" if self.fwd else "")
+                                 self.ctx, ":fwd" if self.fwd else "") + (":probe" if self.probe else "")
 
     def proto(self, name, names=False):
         ps = ["%s%s" % (ctype(k), " a%d" % i if names else "") for i, k in enumerate(self.args[:self.nfix])]
@@ -382,7 +390,12 @@ def judge(ctx, case, results):
         if len(ctx.cov["oracle_examples"]) < 5:
             ctx.cov["oracle_examples"].append(dict(case=case.key(), got=str(ref)[:300], exp=exp))
         return
-    predicted = set(b.get("dis", [])) | (set(b.get("fdis", [])) if case.fwd else set())
+    # which side of this behaviour the model still vouches for (a side that has deviated is not judged)
+    cj, ej, fj = b.get("cj", True), b.get("ej", True), b.get("fj", True)
+    side_ok = {("cc", "gcc"): cj, ("gcc", "cc"): ej and (fj or not case.fwd), ("cc", "cc"): cj and ej}
+    predicted = set(b.get("adis", b.get("dis", []) + b.get("fdis", [])))
+    if not case.fwd:
+        predicted = {c for c in predicted if not c.startswith("vaforward")}
     rpred = set(b.get("rdis", []))
     fails = 0
     for l in LINKINGS[:3]:
@@ -396,25 +409,27 @@ def judge(ctx, case, results):
             continue
         fails += 1
         ln = "%s>%s" % l + (":fwd" if case.fwd else "")
+        retbad = what == "r" and r[0] == "ok" and r[1].get("r", [])[1:-1] != exp["r"][1:-1]
         if what == "r" and r[0] == "ok" and r[1].get("r", [None])[:1] == [0]:
             cls = "callee-saved-register-clobbered"
-        elif what == "r" and r[1].get("r", [])[1:-1] != exp["r"][1:-1] and rpred:
+        elif retbad and rpred:
             cls = pick_class(rpred, l, [])
-        elif what == "r" and r[1].get("r", [])[1:-1] != exp["r"][1:-1] and not predicted:
-            cls = "unpredicted:return:" + case.ret
-        elif what == "r" and not predicted and not rpred:
-            cls = "unpredicted:value-around-call:" + case.ctx
-        elif what == "c" and r[0] == "ok" and r[1].get("c", [])[:-1] == exp["c"][:-1] and not predicted:
-            cls = "stack-misaligned-at-call"
-        elif predicted or rpred:
-            own = set(b.get("dis", []))      # with a forwarded va_list the walker's own defects come first
-            cls = pick_class(own if (own and l == ("cc", "cc")) else (predicted or rpred), l, ["vaarg", "vastart", "vaforward"] if what == "w" else [])
+        elif side_ok[l] or not predicted:
+            if retbad:
+                cls = "unpredicted:return:" + case.ret
+            elif what == "r":
+                cls = "unpredicted:value-around-call:" + case.ctx
+            elif what == "c" and r[0] == "ok" and r[1].get("c", [])[:-1] == exp["c"][:-1]:
+                cls = "stack-misaligned-at-call"
+            else:
+                cls = "unpredicted:%s:%s" % (dict(c="args", w="va_list-forwarded", compile="compile", crash="crash").get(what, what),
+                                             case.args[-1] if case.args else "-")
         else:
-            cls = "unpredicted:%s:%s" % (dict(c="args", w="va_list-forwarded", r="return", compile="compile", crash="crash").get(what, what),
-                                         case.args[-1] if case.args else "-")
+            pl = predicted if l == ("gcc", "cc") else ({c for c in predicted if not c.startswith("vaforward")} or predicted)
+            cls = pick_class(pl, l, ["vaarg", "vastart", "vaforward"] if what == "w" else [])
         ctx.report("replay:%s:%s" % (ln, cls),
                    "%s linked %s: expected %s got %s" % (case.key(), ln, exp, str(r)[:400]),
-                   case=dict(kind="sig", beh=b, ctx=case.ctx, fwd=case.fwd, linking=ln, expected=exp, got=str(r)[:2000]))
+                   case=dict(kind="sig", beh=b, ctx=case.ctx, fwd=case.fwd, probe=case.probe, linking=ln, expected=exp, got=str(r)[:2000]))
     if (predicted or rpred) and not fails:
         ctx.cov["predicted_but_passing"] = ctx.cov.get("predicted_but_passing", 0) + 1
     ctx.cov["traces_validated_against_impl"] += 3
@@ -442,28 +457,66 @@ def check_model(ctx, res, cfgname):
         ctx.report("tlc:SysV:%s:%s" % (cfgname, res.violated), "chibicc's deciders disagree with the psABI or with each other (TLC counterexample)", p)
 
 
+def is_dots(b):
+    return b["nfix"] < len(b["args"])
+
+
 def select(ctx, beh, stride, per_class=2):
-    """seed-dependent subsample of the clean behaviours + a few examples per predicted class"""
-    clean = [b for b in beh if not b["dis"] and not b["fdis"]]
-    tainted = [b for b in beh if b["dis"] or b["fdis"]]
-    sel = vt.subsample(clean, ctx.seed, stride)
+    """seed-dependent subsample: behaviours with both sides judged, behaviours with one side judged (the
+    other has an open finding), and a few examples per predicted class where nothing is judged"""
+    both = [b for b in beh if b["cj"] and b["ej"]]
+    one = [b for b in beh if b["cj"] != b["ej"]]
+    none = [b for b in beh if not b["cj"] and not b["ej"]]
+    sel = vt.subsample(both, ctx.seed, stride) + vt.subsample(one, ctx.seed, 2 * stride)
     seen = {}
-    for b in vt.subsample(tainted, ctx.seed, max(1, stride // 8)):
+    for b in vt.subsample(none + one, ctx.seed, max(1, stride // 8)):
         k = tuple(sorted(b["dis"] + b["fdis"]))
-        if seen.get(k, 0) < per_class:
+        if k and seen.get(k, 0) < per_class:
             seen[k] = seen.get(k, 0) + 1
             sel.append(b)
     return sel
 
 
-def make_cases(beh, seed):
+def strata(ctx, beh, per=1):
+    """Every kind of variadic fetch that the callee side is still judged on: (kind, register or overflow
+    area, parity of the overflow area, gp / sse registers exhausted, first fetch after va_start), `per`
+    representatives each chosen by the seed; replayed extended by the probe argument so that the cursor
+    the fetch leaves behind is observed."""
+    groups = {}
+    for b in beh:
+        if is_dots(b) and b["ej"]:
+            k = (b["args"][-1], b["locs"][-1]["mem"], b["from"]["par"], b["from"]["gp"] >= 6, b["from"]["sse"] >= 8,
+                 b["nfix"] == len(b["args"]) - 1, b["hidden"])
+            groups.setdefault(k, []).append(b)
+    # named parameters: every aggregate or scalar that meets exhausted or nearly exhausted registers
+    for b in beh:
+        if not is_dots(b) and (b["cj"] or b["ej"]) and b.get("probe"):
+            f, k = b["from"], b["args"][-1]
+            agg = k[0] in "SU"
+            spill = b["locs"][-1]["mem"] and k not in ("S24", "See", "Sel", "Se", "Sc17", "Sddd", "e")   # did not fit: all-or-nothing
+            if (agg and (spill or f["gp"] >= 5 or f["sse"] >= 7)) or (not agg and (f["gp"] >= 6 or f["sse"] >= 8)):
+                key = ("named", k, b["locs"][-1]["mem"], min(f["gp"], 6), min(f["sse"], 8), b["hidden"], b["var"])
+                groups.setdefault(key, []).append(b)
+    out = []
+    for k in sorted(groups, key=str):
+        g = groups[k]
+        for j in range(min(per, len(g))):
+            out.append(g[(ctx.seed * 7919 + j * 104729) % len(g)])
+    return out
+
+
+def make_cases(beh, seed, probes=()):
     cases = []
     for i, b in enumerate(beh):
-        var = b["nfix"] < len(b["args"])
+        var = is_dots(b)
         fwd = var and bool(b["fdis"] or (i + seed) % 3 == 0)
         cases.append(Case(0, b, CTXS[(i + seed) % len(CTXS)], fwd))
         if fwd and b["dis"]:
             cases.append(Case(0, b, "d0", False))
+        if b.get("probe") and (i + seed) % 2 == 0:
+            cases.append(Case(0, b, CTXS[(i + seed + 1) % len(CTXS)], False, probe=True))
+    for i, b in enumerate(probes):
+        cases.append(Case(0, b, CTXS[(i + seed) % len(CTXS)], False, probe=bool(b.get("probe"))))
     return cases
 
 
@@ -480,9 +533,12 @@ def run(ctx):
     ctx.phase("control")
     # exhaustive checks + generation
     outs = {}
-    for name, over in (("graph", {}), ("sigs", dict(MaxLen=2 if q else 3)), ("rets", {})):
+    # quick: the allocator graph over one kind per (class vector, size bucket, alignment); the kinds left out
+    # (l p Sc3 Sff Sdd Sif Udl Sc16) are in every signature of length <= 2 below.  thorough: all 22.
+    qkinds = '{"i","f","d","e","Si","Sd","Sfff","Sld","Sdl","Sll","S24","Se","See","Sel"}'
+    for name, over in (("graph", dict(ParamSel=qkinds) if q else {}), ("sigs", dict(MaxLen=2 if q else 3)), ("rets", {})):
         outs[name] = os.path.join(ctx.scratch, name + ".ndjson")
-        res = tlc_run(ctx, "SysV_%s.cfg" % name, outs[name], workers=4 if q else 6, **over)
+        res = tlc_run(ctx, "SysV_%s.cfg" % name, outs[name], workers=8, **over)
         check_model(ctx, res, name)
     ctx.phase("tlc")
     if ctx.violations:           # the design itself is refuted; the generated set is incomplete
@@ -493,7 +549,8 @@ def run(ctx):
     for lst in (graph, sigs, rets):
         lst.sort(key=lambda b: json.dumps([b["ret"], b["nfix"], b["args"]]))
     beh = select(ctx, graph, 120 if q else 6) + select(ctx, sigs, 16 if q else 2) + select(ctx, rets, 3 if q else 1)
-    cases = make_cases(beh, ctx.seed)
+    probes = strata(ctx, graph, 1 if q else 4) + strata(ctx, sigs, 1 if q else 2)
+    cases = make_cases(beh, ctx.seed, probes)
     b0 = beh[len(beh) // 2]
     ctx.sample(dict(kind="allocator-graph transition", signature=Case(0, b0).key(), psabi_locations=b0["locs"], al=b0["al"],
                     return_in=b0["rloc"], predicted_disagreements=b0["dis"]))
@@ -504,12 +561,12 @@ def run(ctx):
     ctx.assumptions += [
         "Level I (SysV.tla) is a hand transcription of codegen.c / stdarg.h; the four-way linking judges the real code",
         "the C rendering of the kind alphabet (harness/c06.py KT) mirrors SysV.tla KindSeq; gcc x gcc linking validates each generated case",
-        "behaviours are not continued past a transition with an open-finding disagreement (the transition itself is replayed)",
+        "after a transition with an open-finding disagreement only the side that did not deviate is explored and judged further (with gcc on the other side)",
         "%al, the exact register/stack location and `rax = hidden pointer` are checked in the model; replay observes them only through values received"]
     return ctx.finish(
         rule="case = one TLC-emitted signature (allocator-graph transition from the shortest history, every signature of length <= MaxLen, every return kind) x call context (expression depth 0..3 / nested call / forwarded va_list), run in 3 linkings against the gcc x gcc reference; non-trivial = at least one argument; distinct = distinct (signature, context)",
         exhaustive=not q,
-        extra=dict(graph_transitions=len(graph), signatures=len(sigs), return_kinds=len(rets), cases_replayed=len(cases)))
+        extra=dict(graph_transitions=len(graph), signatures=len(sigs), return_kinds=len(rets), cases_replayed=len(cases), fetch_strata_probed=len(probes)))
 
 
 def replay(ctx, path):
@@ -520,7 +577,7 @@ def replay(ctx, path):
         check_model(ctx, res, c["cfg"])
     else:
         tree = ctx.build()
-        case = Case(0, c["beh"], c.get("ctx", "d0"), c.get("fwd", False))
+        case = Case(0, c["beh"], c.get("ctx", "d0"), c.get("fwd", False), c.get("probe", False))
         results = run_cases(ctx, tree, [case], "replay")
         judge(ctx, case, results.get(id(case), {}))
     return ctx.finish(rule="replay of one recorded case")
